@@ -196,7 +196,7 @@ impl PropImpl for C05 {
          document with >= 2 paragraphs or with leading/trailing trivia.".into()
     }
     fn budget(&self, tier: Tier) -> Budget {
-        Budget { cases_per_lane: if tier == Tier::Quick { 2000 } else { 40_000 }, tape_max: 800, cpu_s: 10 }
+        Budget { cases_per_lane: if tier == Tier::Quick { 10000 } else { 40_000 }, tape_max: 800, cpu_s: 10 }
     }
     fn spaces(&self, _tier: Tier) -> Vec<Space> {
         vec![Space { name: "all histories of <= 3 structural operations on 10 layouts".into(), size: (1 + 9 + 81 + 729) * LAYOUTS.len() as u64, exhaustive: true }]
